@@ -11,6 +11,7 @@ from . import _partner as P
 ID = "C14"
 OPTIMISED_STRIDE = {"quick": 6, "thorough": 12}      # every k-th shard once more in an interpreter started with -O
 TRACE_STRIDE = {"quick": 6, "thorough": 12}      # every k-th shard once more with logging enabled down to TRACE
+BYTEORDER_STRIDE = {"quick": 3, "thorough": 6}      # every k-th shard once more with sys.byteorder reporting a big-endian host
 LEVEL = "model_checking"
 ENGINE = "E2"
 TECHNIQUE = "exhaustive enumeration of 16-bit values x selectors x destinations driving the real DT8 generators against a spec model of the DT8 Tc registers; answer faults enumerated at both query bytes"
